@@ -98,13 +98,36 @@ def run(ck):
                     seen.add(f)
                     fs.append(f)
     cases = [(f, 'dd') for f in fs] + [(f, 'ed') for f in fs]
+    # caller / installation states (differential against the plain run of the same file): descriptors 0-2 closed; the library file already removed
+    sub = fs if ck.tier == 'thorough' else [f for f in fs if f is None or f.count(b'\n') + (0 if f.endswith(b'\n') or not f else 1) <= 2]
+    cases += [(f, 'Dd') for f in sub]
+    xcases = [(f, 'xdc') for f in sub]
     res = C.run_batch(ck, cli, hcli, LIB, cases, 'c19')
+    res += C.run_batch(ck, cli, hcli, LIB, xcases, 'c19x', n=1)     # alone: removes and recreates the shared library file
+    cases += xcases
     evals = 0
     outcomes = set()
     samples = []
     if len(res) != len(cases):
         ck.violation('C19:harness:batch_incomplete', {'got': len(res), 'want': len(cases)})
+    plain_first = {}
     for (f, seq), steps in zip(cases, res):
+        if seq in ('Dd', 'xdc'):
+            evals += 2
+            st = steps[0] if seq == 'Dd' else (steps[1] if len(steps) > 1 else None)
+            want = plain_first.get(f)
+            if st is None or want is None:
+                continue
+            got = (st[0], st[1])
+            what = 'std_descriptors_closed' if seq == 'Dd' else 'library_file_already_removed'
+            outcomes.add((what, got[0], got[1] == f, got == want))
+            if got != want:
+                ck.violation('C19:disable_depends_on:%s:file=%r' % (what, (f or b'(absent)').replace(LIB, b'LIB')[:80]),
+                             {'file': None if f is None else f.decode('latin-1'), 'state': what, 'in_state': {'rc': got[0], 'after': None if got[1] is None else got[1].decode('latin-1')},
+                              'normally': {'rc': want[0], 'after': None if want[1] is None else want[1].decode('latin-1')}})
+            continue
+        if seq == 'dd' and len(steps) == 2:
+            plain_first[f] = (steps[0][0], steps[0][1])
         evals += 2
         if len(steps) != 2:
             ck.violation('C19:harness:steps', {'file': repr(f)})
